@@ -125,7 +125,7 @@ func metaCheck(env *core.Env, cc core.Case) core.Verdict {
 			return *affixFinding(env, root, p, bad, q, ra.InlineOpts{Includes: true})
 		}
 		if q2, err := ra.Inline(p.Main, &p.Files, ra.InlineOpts{Includes: true, OneLine: true}); err == nil && q2 != q {
-			// a file with affixes and a single entry, spelt without markers: the tool's own treatment of markers is
+			// files with affixes and plain entries, spelt without markers: the tool's own treatment of markers is
 			// not on both sides of this comparison
 			w := core.Verdict{Counts: map[string]int{}}
 			if bad := metaCompare(env, root, p.Main, q2, false, c.Kind+":one-line-spelling", &w); bad != nil {
@@ -828,7 +828,7 @@ func init() {
 		ID:    "C05",
 		Level: "exploration",
 		Rule: "including programs (include at top level beside entries and markers, inside an assemble block with markers and stored names, inside a cmdline block; optional flags and own definitions) x generated include files (word lists with comments, blank lines, indentation; own prefixes and/or suffixes; own definitions; nested includes to depth 3; placed in include/ or exclude/; referenced with and without .ra) are compiled by the built CLI and compared with the same program in which the harness's spec-level inliner typed the lines in place. " +
-			"Oracle: identical stdout (bytes first, otherwise exact language comparison with confirmed witness); a reference to a name that only an include file defines stays literal on both sides; an include file that carries a flags line (directly or one level deeper) must make generate fail with empty stdout. A second equivalent is compared where it differs: an include file with affix lines and exactly one entry spelt as the single line (?:prefix)(?:entry)(?:suffix), without block and markers, so that the tool's marker handling is on one side only; a difference that is exactly finding F41 (affix texts treated as entries by pairs and exclusions) is reported as that finding. Non-trivial = the inlined program differs from the original. Plus I/O-fault scenarios (iofault.go): every read - or every read but the first - of one file longer than two buffers fails with EIO (strace injection): the command must fail without printing or writing a partial result, or what it produced must be the complete result.",
+			"Oracle: identical stdout (bytes first, otherwise exact language comparison with confirmed witness); a reference to a name that only an include file defines stays literal on both sides; an include file that carries a flags line (directly or one level deeper) must make generate fail with empty stdout. A second equivalent is compared where it differs: the block that wraps an include file with affix lines and plain entries spelt as the single line (?:prefix)(?:e1|e2|..)(?:suffix), without block and markers (after exclusions and pairs have been applied), so that the tool's marker handling is on one side only; a difference that is exactly finding F41 (affix texts treated as entries by pairs and exclusions) is reported as that finding. Non-trivial = the inlined program differs from the original. Plus I/O-fault scenarios (iofault.go): every read - or every read but the first - of one file longer than two buffers fails with EIO (strace injection): the command must fail without printing or writing a partial result, or what it produced must be the complete result.",
 		Cases: func(env *core.Env, rng *rand.Rand) []core.Case {
 			n := env.N(1500, 15000)
 			var cs []core.Case
@@ -883,7 +883,7 @@ func init() {
 		ID:    "C06",
 		Level: "exploration",
 		Rule: "generated `include-except F X1..Xn [-- pairs]` programs: F is a word list with duplicates, blank lines, comments and own definitions; 1..3 exclude files (empty, disjoint, overlapping, superset; in include/ or exclude/; with and without .ra); 0..4 suffix-replacement pairs including \"\" deletions and replacements that end in another pair's key (no key is a suffix of another key); at top level or inside a block; sometimes a plain include with the same pairs. " +
-			"Oracle: stdout equals that of the program in which the harness wrote the surviving, rewritten entries by hand (F's entries after F's own definition expansion, minus every entry of every Xi, original order, each pair applied once to the original ending): byte-identical when F has no duplicate entry, exact language equality otherwise; the texts of prefix and suffix lines of F and of files nested in F are not entries (no exclusion, pair or repeated line may touch them: findings F40, repaired, and F41, listed), and the one-line spelling of single-entry affix files is compared as a second equivalent. Non-trivial = the hand-written program differs from the original. Plus I/O-fault scenarios (iofault.go): every read - or every read but the first - of one file longer than two buffers fails with EIO (strace injection): the command must fail without printing or writing a partial result, or what it produced must be the complete result.",
+			"Oracle: stdout equals that of the program in which the harness wrote the surviving, rewritten entries by hand (F's entries after F's own definition expansion, minus every entry of every Xi, original order, each pair applied once to the original ending): byte-identical when F has no duplicate entry, exact language equality otherwise; the texts of prefix and suffix lines of F and of files nested in F are not entries (no exclusion, pair or repeated line may touch them: findings F40, repaired, and F41, listed), and the one-line spelling of wrapped affix files is compared as a second equivalent. Non-trivial = the hand-written program differs from the original. Plus I/O-fault scenarios (iofault.go): every read - or every read but the first - of one file longer than two buffers fails with EIO (strace injection): the command must fail without printing or writing a partial result, or what it produced must be the complete result.",
 		Cases: func(env *core.Env, rng *rand.Rand) []core.Case {
 			n := env.N(1500, 15000)
 			var cs []core.Case
